@@ -259,6 +259,16 @@ py_req(const char *req)
 	return res;
 }
 
+/* vd_next() looks at the deadline only on every 256th beat; cases are few and long here */
+static int
+c07_next(void)
+{
+	if (vd_deadline > 0 && vd_only < 0 && vd_now() > vd_deadline) {
+		vd_sh->capped = 1;
+	}
+	return vd_next();
+}
+
 /* --------------------------------------------------------------- zones */
 static char **znames;
 static size_t nzones;
@@ -629,7 +639,7 @@ enum_conv(void)
 	load_zones();
 	for (size_t zi = 0; zi < nzones; zi++) {
 		for (order = 0; order < NORD; order++) {
-			if (!vd_next()) {
+			if (!c07_next()) {
 				continue;
 			}
 			if (order == ORD_ISO && !strcmp(vd_opt("orders", "all"), "seq")) {
@@ -644,7 +654,7 @@ enum_conv(void)
 				loaded = zi;
 			}
 			if (order == ORD_ISO) {
-				vd_count("zones", 1);
+				vd_count("zones_conv", 1);
 				vd_count("transitions_32bit", z_ntr);
 			}
 			if (zi % 7 == 0 && order == ORD_ISO) {
@@ -849,7 +859,7 @@ enum_rule(void)
 	load_zones();
 	for (size_t zi = 0; zi < nzones; zi++) {
 		char req[300];
-		if (!vd_next()) {
+		if (!c07_next()) {
 			continue;
 		}
 		zname = znames[zi];
@@ -868,7 +878,7 @@ enum_rule(void)
 		snprintf(req, sizeof(req), "rule %s", zname);
 		free_lines(&rl);
 		rl = py_req(req);
-		vd_count("zones", 1);
+		vd_count("zones_rule", 1);
 		run_forked(rule_case, NULL);
 	}
 }
@@ -1078,7 +1088,7 @@ enum_cache(void)
 		/* all cyclic orders: start r, stride s, three rounds */
 		for (int r = 0; r < cN; r++) {
 			for (int s = 1; s < cN; s++) {
-				if (!vd_next()) {
+				if (!c07_next()) {
 					continue;
 				}
 				nseq = 0;
@@ -1102,7 +1112,7 @@ enum_cache(void)
 		for (int j = 0; j < cN; j++) {
 			for (int h = 0; h < 2; h++) {
 				int H = h ? cN + 3 : 2;
-				if (!vd_next()) {
+				if (!c07_next()) {
 					continue;
 				}
 				nseq = 0;
@@ -1138,7 +1148,7 @@ enum_cache(void)
 	}
 	for (cK = 63; cK <= 65; cK++) {
 		for (cpath = 0; cpath < 3; cpath++) {
-			if (!vd_next()) {
+			if (!c07_next()) {
 				continue;
 			}
 			vd_shape("cache/tzids=%d", cK);
